@@ -1,5 +1,5 @@
 (* ReplayProofs.v — proofs about ReplayModel (hash.c + replay.c). *)
-From Coq Require Import List NArith Bool Arith Sorted Lia.
+From Coq Require Import List NArith Bool Arith Sorted Lia Permutation.
 From Coq.Strings Require Import Byte.
 From MV Require Import Bytes ReplayModel.
 From MV.gen Require Import GenReplay.
@@ -540,7 +540,7 @@ Lemma source_facts :
   replay_cmp_mac_first = true /\ replay_cmp_len = replay_mac_len /\
   N.of_nat replay_mac_len = munge_minimum_md_len /\
   replay_expired_when_lt = true /\ replay_expired_when_eq = false /\ replay_expired_when_gt = false /\
-  replay_texp_modulus = 4294967296 /\ 0 < replay_hash_size /\ 0 < replay_purge_secs.
+  replay_texp_wraps32 = false /\ replay_texp_exact = true /\ 0 < replay_hash_size /\ 0 < replay_purge_secs.
 Proof. repeat split. Qed.
 
 Lemma c_slot_ok size : 0 < size -> slots_ok (c_slot size) (N.to_nat size).
@@ -1160,4 +1160,48 @@ Proof.
     pose proof (rins_new slot_of nslots Hs t k H). auto 10.
   - intros k. cbv zeta. destruct (rrem_spec slot_of nslots Hs t k H) as (I1 & I2 & I3 & I4 & I5). auto 10.
   - intros now. cbv zeta. destruct (purge_exact slot_of nslots Hs t now H) as (I1 & _ & I3 & _). auto.
+Qed.
+
+(* the expiry component of a key is exactly time0 + ttl (ttl as capped by the caller): no 32-bit wrap *)
+Theorem key_expiry_exact : forall time0 ttl : N, t_expired_of time0 ttl = time0 + ttl.
+Proof. reflexivity. Qed.
+
+(* bridge to a list-of-keys view of the replay set (CredModel: member test, k :: rs on insert, filter on
+   roll-back): any list l with the same members as abs t stays so under the corresponding operations *)
+Theorem abs_list_bridge : forall (slot_of : rkey -> nat) (nslots : nat), slots_ok slot_of nslots ->
+  forall (t : rtable) (l : list rkey), rinv slot_of nslots t -> (forall x, In x l <-> In x (abs t)) ->
+  forall k,
+    (fst (replay_insert slot_of k t) = AlreadyExists <-> In k l) /\
+    (fst (replay_insert slot_of k t) = Inserted <-> ~ In k l) /\
+    (fst (replay_insert slot_of k t) = AlreadyExists -> snd (replay_insert slot_of k t) = t) /\
+    (fst (replay_insert slot_of k t) = Inserted ->
+       Permutation (abs (snd (replay_insert slot_of k t))) (k :: abs t)) /\
+    (forall x, In x (k :: l) <-> In x (abs (snd (replay_insert slot_of k t)))) /\
+    (fst (replay_remove slot_of k t) = true <-> In k l) /\
+    (fst (replay_remove slot_of k t) = true ->
+       Permutation (k :: abs (snd (replay_remove slot_of k t))) (abs t)) /\
+    (forall l', (forall x, In x l' <-> In x l /\ x <> k) ->
+                forall x, In x l' <-> In x (abs (snd (replay_remove slot_of k t)))).
+Proof.
+  intros slot_of nslots Hs t l H Hl k.
+  destruct (rins_spec slot_of nslots Hs t k H) as (I1 & I2 & I3 & I4 & _).
+  pose proof (rins_new slot_of nslots Hs t k H) as I5.
+  destruct (rrem_spec slot_of nslots Hs t k H) as (R1 & R2 & _ & R4 & _).
+  assert (Nt : NoDup (abs t)) by (eapply rabs_nodup; eauto).
+  split; [rewrite I2; symmetry; apply Hl|].
+  split; [rewrite I5; split; intros A B; apply A, Hl, B|].
+  split; [exact I3|]. split; [|split; [|split; [|split]]].
+  - intros E. apply NoDup_Permutation.
+    + eapply rabs_nodup; eauto.
+    + constructor; [now apply I5|exact Nt].
+    + intros x. rewrite I4. cbn [In]. split; intros [A|A]; auto.
+  - intros x. rewrite I4. cbn [In]. rewrite Hl. split; intros [A|A]; auto.
+  - rewrite R2. symmetry. apply Hl.
+  - intros E. apply NoDup_Permutation.
+    + constructor; [|eapply rabs_nodup; eauto]. rewrite R4. tauto.
+    + exact Nt.
+    + intros x. cbn [In]. rewrite R4. split.
+      * intros [<-|[_ A]]; [now apply R2|exact A].
+      * intros A. destruct (rkey_eq_dec k x) as [->|Hne]; [now left|right]. split; [congruence|exact A].
+  - intros l' Hl' x. rewrite Hl', R4, Hl. tauto.
 Qed.
